@@ -66,6 +66,11 @@ CLAIMED = {
   "Live registry == pinned/registry.json in both directions; name->number->name and number->name->number identities through every public lookup and through one-item XML/JSON documents; unregistered numbers and names per scope; no duplicate names per scope. exhaustive:true.",
   "Trusted: pinned/registry.json (generated from the pinned commit, spot-reviewed against the KMIP 1.4 tables, cross-checked on every run against 83k element names and 12.9k enumeration names of the vectors).",
   "DESIGN.md §3 C17"),
+ "C01": ("exploration", "enum+ref",
+  "deviation-bounded exhaustive enumeration of KMIP messages (rich baseline per operation and direction, every site x boundary alphabet, k<=1 quick / related pairs thorough, x 5 protocol versions) judged by an independent TTLV parser and an independent reflective projection of the populated elements",
+  "For every enumerated message: the encoding parses strictly, its element tree equals the reference projection of the populated fields (pinned tags, pinned version table), decoding succeeds with identical payload types, the decoded value projects to the same tree, and re-encoding is byte-identical.",
+  "Trusted: refttlv, msg.Projector (300 lines, mirrors the naming convention field name -> tag through the pinned registry), pinned tables. Values outside the alphabets are represented by boundary classes.",
+  "DESIGN.md §3 C01"),
 }
 NOT_YET = "check not built yet in this session (planned, see DESIGN.md §3)"
 NA = {}
